@@ -368,6 +368,9 @@ pub struct HdrPlan {
     /// query part of the URL ("" = none)
     #[serde(default)]
     pub query: String,
+    /// fragment of the URL ("" = none; "#" alone = an empty fragment): never part of :path
+    #[serde(default)]
+    pub fragment: String,
 }
 
 const RESERVED: [&str; 5] = [":method", ":scheme", ":protocol", ":authority", ":path"];
@@ -396,7 +399,11 @@ pub fn exec_hdr(p: &HdrPlan, trace: bool) -> Exec {
             });
             Ok::<_, String>(seen)
         };
-        let url = if p.query.is_empty() { harness::default_url() } else { format!("{}?{}", harness::default_url(), p.query) };
+        let mut url = if p.query.is_empty() { harness::default_url() } else { format!("{}?{}", harness::default_url(), p.query) };
+        if !p.fragment.is_empty() {
+            url.push('#');
+            url.push_str(p.fragment.trim_start_matches('#'));
+        }
         let opts = ConnectOptions::builder(url).add_header(p.name.clone(), p.value.clone()).build();
         let client = async { pair.client_ep.connect(opts).await };
         tokio::select! {
@@ -503,7 +510,12 @@ impl TypedScenario for C18Hdr {
             _ => format!("value-{}", rng.range(0, 9999)),
         };
         let query = if rng.chance_pm(400) { format!("id={}&x=a%20b", rng.range(0, 999)) } else { String::new() };
-        HdrPlan { seed, rt: RtKnobs::from_rng(&mut rng), name, value, query }
+        let fragment = match rng.below(5) {
+            0 => "#".to_string(),
+            1 => format!("frag-{}", rng.range(0, 99)),
+            _ => String::new(),
+        };
+        HdrPlan { seed, rt: RtKnobs::from_rng(&mut rng), name, value, query, fragment }
     }
     fn execute(&self, plan: &HdrPlan, trace: bool) -> Exec {
         exec_hdr(plan, trace)
@@ -517,7 +529,7 @@ pub fn def() -> PropertyDef {
     PropertyDef {
         id: "C18",
         scenarios: vec![Box::new(Typed(C18Req)), Box::new(Typed(C18Status)), Box::new(Typed(C18Hdr))],
-        rule: "raw-request-admission: raw client sends a request whose five pseudo-headers are each right / missing / wrong (exhaustive grid of 6x5x5x3x3 = 1350 combinations, then sampled single-defect requests with arbitrary extra fields and all four QPACK encoding styles); oracle: offered to the application iff CONNECT + https + webtransport + authority + path (authority, path and extras delivered intact); otherwise that stream is refused with STOP_SENDING H3_REQUEST_REJECTED or H3_MESSAGE_ERROR, the application never sees it, and a following valid request on the same connection establishes a session that ends cleanly. raw-response-status: raw server answers the real client's CONNECT with a :status string — quick: every integer 0..1099 and 65436..65535, thorough: every integer 0..65535; plus signs, spaces, empty, non-digits, non-ASCII digits, huge numbers, and no :status at all; oracle: session iff a three-digit integer in 200..=299; 'session rejected' iff three digits in 100..=599 otherwise; everything else is malformed: connect() fails (not as a rejection) and the connection is closed with H3_MESSAGE_ERROR; in-range integers written with leading zeros are unconstrained. e2e-reserved-headers: ConnectOptions::add_header with each reserved pseudo-header, near-reserved names and reserved names in other letter cases (:Path, :AUTHORITY, random case subsets), on URLs with and without a query; oracle: ReservedHeader error exactly for the five reserved names; other names reach the server intact; whatever reaches the server application carries :method CONNECT, :scheme https, :protocol webtransport and exactly the URL's authority and path-plus-query (a case variant may be refused, fail or pass as an ordinary field, but never changes those five). Every run is non-trivial; distinct = distinct plan hashes. Not covered here (pure functions): the numeric TryFrom<u8|u16|u32|u64> constructors.",
+        rule: "raw-request-admission: raw client sends a request whose five pseudo-headers are each right / missing / wrong (exhaustive grid of 6x5x5x3x3 = 1350 combinations, then sampled single-defect requests with arbitrary extra fields and all four QPACK encoding styles); oracle: offered to the application iff CONNECT + https + webtransport + authority + path (authority, path and extras delivered intact); otherwise that stream is refused with STOP_SENDING H3_REQUEST_REJECTED or H3_MESSAGE_ERROR, the application never sees it, and a following valid request on the same connection establishes a session that ends cleanly. raw-response-status: raw server answers the real client's CONNECT with a :status string — quick: every integer 0..1099 and 65436..65535, thorough: every integer 0..65535; plus signs, spaces, empty, non-digits, non-ASCII digits, huge numbers, and no :status at all; oracle: session iff a three-digit integer in 200..=299; 'session rejected' iff three digits in 100..=599 otherwise; everything else is malformed: connect() fails (not as a rejection) and the connection is closed with H3_MESSAGE_ERROR; in-range integers written with leading zeros are unconstrained. e2e-reserved-headers: ConnectOptions::add_header with each reserved pseudo-header, near-reserved names and reserved names in other letter cases (:Path, :AUTHORITY, random case subsets), on URLs with and without a query and a fragment; oracle: ReservedHeader error exactly for the five reserved names; other names reach the server intact; whatever reaches the server application carries :method CONNECT, :scheme https, :protocol webtransport and exactly the URL's authority and path-plus-query (a case variant may be refused, fail or pass as an ordinary field, but never changes those five). Every run is non-trivial; distinct = distinct plan hashes. Not covered here (pure functions): the numeric TryFrom<u8|u16|u32|u64> constructors.",
         assumptions: vec![
             "raw peer + reference codec are harness code; current-thread runtime; fault-free network",
             "the numeric StatusCode constructors are pure functions and are not simulation targets",
